@@ -835,6 +835,11 @@ def create_binary_event_files(event_file,
         def _callback(result):
             nonlocal number_events
             number_events += result
+            if result == 0:
+                # the job started at or behind the end of the events: this
+                # happens when the number of events is a multiple of
+                # events_per_file and no job ends with a partly filled file
+                pool.close()
             if verbose:
                 print("finished job")
                 sys.stdout.flush()
